@@ -436,6 +436,669 @@ def replay_collector(cirq, data):
 
 
 # ======================================================================================================================
+# Stream manager: the real StreamManager on an asyncio loop that only the driver turns, a fake Quantum Engine behind it
+# ======================================================================================================================
+
+PROJECT = 'projects/proj'
+REQ_FIELDS = (('CreateProgJob', 'create_quantum_program_and_job'), ('CreateJob', 'create_quantum_job'),
+              ('GetResult', 'get_quantum_result'))
+
+
+def _prog_name(p):
+    return f'{PROJECT}/programs/g{p}'
+
+
+def _job_name(p, e):
+    return f'{PROJECT}/programs/g{p}/jobs/j{e}'
+
+
+def _parse_job(name):
+    """job name -> (program index, execution index) or None"""
+    import re
+    m = re.fullmatch(PROJECT + r'/programs/g(\d+)/jobs/j(\d+)', name)
+    return (int(m.group(1)), int(m.group(2))) if m else None
+
+
+class StreamRun:
+    """One run of the real StreamManager, event by event. All observations are tagged with the step number."""
+
+    def __init__(self, mods, pre_progs=(), pre_jobs=(), fails=()):
+        import asyncio
+        import duet
+        from cirq_google.cloud import quantum
+        from cirq_google.engine import stream_manager as sm
+        from cirq_google.engine.asyncio_executor import AsyncioExecutor
+        from .. import tables_c20
+        self.asyncio, self.quantum, self.sm, self.AsyncioExecutor = asyncio, quantum, sm, AsyncioExecutor
+        self.exn_classes = tables_c20.exception_classes()
+        run = self
+
+        class DrivenExecutor(AsyncioExecutor):
+            """AsyncioExecutor.submit unchanged (run_coroutine_threadsafe + duet wrapper) on a loop nobody else runs."""
+
+            def __init__(self):
+                self.loop = asyncio.new_event_loop()
+
+            def submit(self, func, *args, **kw):
+                f = super().submit(func, *args, **kw)
+                if getattr(func, '__name__', '') == '_make_request_queue':
+                    run.settle()
+                return f
+
+        class FakeClient:
+            async def quantum_run_stream(self, requests, **kw):
+                q = asyncio.Queue()
+                no = len(run.streams)
+                run.streams.append(q)
+
+                async def reader():
+                    async for r in requests:
+                        run.on_request(no, r)
+
+                async def responses():
+                    asyncio.get_running_loop().create_task(reader())
+                    while True:
+                        msg = await q.get()
+                        if isinstance(msg, BaseException):
+                            raise msg
+                        yield msg
+                return responses()
+
+            async def cancel_quantum_job(self, request):
+                run.on_cancel_rpc(request.name)
+                await asyncio.sleep(0)
+
+        self.ex = DrivenExecutor()
+        self.saved_instance = AsyncioExecutor._instance
+        AsyncioExecutor._instance = self.ex
+        self.step = 0
+        self.closed = False
+        self.streams = []
+        self.wire = []        # (stream no, message id, request, kind, (p, e))
+        self.pending = []     # (message id, response, payload)
+        self.progs, self.jobs, self.fails = set(pre_progs), set(pre_jobs), set(fails)
+        self.pre_jobs0 = set(pre_jobs)
+        self.creates = []
+        self.futs = []
+        self.exec_prog = []
+        self.owner = {}       # message id -> execution
+        self.reqs, self.replies, self.dones, self.cancels, self.subs = [], [], [], [], []
+        self.anomalies = []
+        self.live_exc = {}    # step -> exception object published at that step
+        self.manager = sm.StreamManager(FakeClient())
+
+    # ---- the loop ----
+    def turn(self):
+        loop = self.ex.loop
+        loop.call_soon(loop.stop)
+        loop.run_forever()
+
+    def settle(self, limit=500):
+        for _ in range(limit):
+            self.turn()
+            if not self.ex.loop._ready:
+                return
+        raise RuntimeError('asyncio loop does not settle')
+
+    def close(self):
+        self.closed = True
+        try:
+            self.manager.stop()
+            self.settle()
+        finally:
+            self.AsyncioExecutor._instance = self.saved_instance
+            loop = self.ex.loop
+            for t in self.asyncio.all_tasks(loop):
+                t.cancel()
+            try:
+                self.settle()
+            except Exception:
+                pass
+            loop.close()
+
+    # ---- observations ----
+    def on_request(self, stream_no, r):
+        if self.closed:
+            return
+        kinds = [k for k, f in REQ_FIELDS if f in r]
+        try:
+            mid = int(r.message_id)
+        except ValueError:
+            mid = -1
+        if len(kinds) != 1:
+            self.anomalies.append(('request-kind', self.step, str(r)))
+            return
+        kind = kinds[0]
+        if kind == 'CreateProgJob':
+            x = r.create_quantum_program_and_job
+            pj = _parse_job(x.quantum_job.name)
+            ok = pj is not None and x.quantum_program.name == _prog_name(pj[0]) and x.parent == PROJECT
+        elif kind == 'CreateJob':
+            x = r.create_quantum_job
+            pj = _parse_job(x.quantum_job.name)
+            ok = pj is not None and x.parent == _prog_name(pj[0])
+        else:
+            pj = _parse_job(r.get_quantum_result.parent)
+            ok = pj is not None
+        if not ok or r.parent != PROJECT:
+            self.anomalies.append(('request-names', self.step, str(r)))
+            return
+        if stream_no != len(self.streams) - 1:
+            self.anomalies.append(('request-on-dead-stream', self.step, mid))
+        self.wire.append((stream_no, mid, r, kind, pj))
+        self.owner.setdefault(mid, pj[1])
+        self.reqs.append((self.step, pj[1], mid, kind))
+
+    def on_cancel_rpc(self, name):
+        if self.closed:
+            return
+        pj = _parse_job(name)
+        self.cancels.append((self.step, pj[1] if pj else -1))
+
+    def on_done(self, e, fut):
+        if self.closed:
+            return
+        if fut.cancelled():
+            o = ('cancelled',)
+        else:
+            exc = fut.exception()
+            if exc is None:
+                r = fut.result()
+                if isinstance(r, self.quantum.QuantumResult):
+                    pj = _parse_job(r.parent)
+                    o = ('result', pj[1] if pj else -1)
+                elif isinstance(r, self.quantum.QuantumJob):
+                    pj = _parse_job(r.name)
+                    o = ('job', pj[1] if pj else -1)
+                else:
+                    o = ('other', repr(r))
+            elif isinstance(exc, self.sm.StreamError):
+                o = ('stream', str(exc))
+            else:
+                names = [n for n, c in self.exn_classes.items() if type(exc).__name__ == c.__name__ and isinstance(exc, c)]
+                o = ('exn', names[0] if names else 'other:' + type(exc).__name__, id(exc))
+        self.dones.append((self.step, e, o))
+
+    # ---- the fake Quantum Engine ----
+    def serve(self, kind, pj):
+        p, e = pj
+        Code = self.quantum.StreamError.Code
+        if kind == 'CreateProgJob':
+            if p in self.progs:
+                return ('err', 'PROGRAM_ALREADY_EXISTS')
+            if e in self.jobs:
+                return ('err', 'JOB_ALREADY_EXISTS')
+        elif kind == 'CreateJob':
+            if p not in self.progs:
+                return ('err', 'PROGRAM_DOES_NOT_EXIST')
+            if e in self.jobs:
+                return ('err', 'JOB_ALREADY_EXISTS')
+        else:
+            if e not in self.jobs:
+                return ('err', 'JOB_DOES_NOT_EXIST')
+            return ('job' if e in self.fails else 'result', e)
+        self.progs.add(p)
+        self.jobs.add(e)
+        self.creates.append(e)
+        return ('job' if e in self.fails else 'result', e)
+
+    def response(self, mid, pj, payload):
+        q = self.quantum
+        if payload[0] == 'err':
+            return q.QuantumRunStreamResponse(message_id=str(mid), error=q.StreamError(
+                code=getattr(q.StreamError.Code, payload[1]), message=payload[1]))
+        name = _job_name(*pj)
+        if payload[0] == 'job':
+            return q.QuantumRunStreamResponse(message_id=str(mid), job=q.QuantumJob(name=name))
+        return q.QuantumRunStreamResponse(message_id=str(mid), result=q.QuantumResult(parent=name))
+
+    # ---- events ----
+    def apply(self, ev):
+        self.step += 1
+        k = ev[0]
+        loop = self.ex.loop
+        if k == 'Submit':
+            e = len(self.futs)
+            p = ev[1]
+            self.exec_prog.append(p)
+            q = self.quantum
+            fut = self.manager.submit(PROJECT, q.QuantumProgram(name=_prog_name(p)), q.QuantumJob(name=_job_name(p, e)))
+            self.futs.append(fut)
+            fut.add_done_callback(lambda f, e=e: self.on_done(e, f))
+        elif k in ('Process', 'RejectReq'):
+            if ev[1] < len(self.wire):
+                _, mid, r, kind, pj = self.wire.pop(ev[1])
+                payload = self.serve(kind, pj) if k == 'Process' else ('err', ev[2])
+                self.pending.append((mid, self.response(mid, pj, payload), payload))
+                self.replies.append((self.step, mid, payload))
+        elif k in ('Respond', 'RespondCancel'):
+            if ev[1] < len(self.pending):
+                mid, resp, payload = self.pending.pop(ev[1])
+                waiter = self.manager._response_demux._subscribers.get(str(mid))
+                e = self.owner.get(mid)
+                loop.call_soon(self.streams[-1].put_nowait, resp)
+                if k == 'RespondCancel' and waiter is not None and not waiter.done() and e is not None \
+                        and not self.futs[e].done():
+                    # the cancellation is queued behind the stream coroutine's wake-up: it runs after publish() has
+                    # fulfilled the waiter and before the execution coroutine resumes
+                    self.turn()
+                    self.futs[e].cancel()
+        elif k == 'Break':
+            exc = self.exn_classes[ev[1]]('stream broke')
+            self.live_exc[self.step] = exc
+            loop.call_soon(self.streams[-1].put_nowait, exc) if self.streams else None
+            self.wire.clear()
+            self.pending.clear()
+        elif k == 'Cancel':
+            if ev[1] < len(self.futs):
+                self.futs[ev[1]].cancel()
+        elif k == 'Stop':
+            self.manager.stop()
+            self.wire.clear()
+            self.pending.clear()
+        else:
+            raise ValueError(ev)
+        self.settle()
+        subs = []
+        for key in self.manager._response_demux._subscribers.keys():
+            try:
+                subs.append(int(key))
+            except ValueError:
+                subs.append(-1)
+        self.subs.append(subs)
+
+    def running(self, e):
+        return e < len(self.futs) and not self.futs[e].done()
+
+
+def run_stream_case(mods, pre_progs, pre_jobs, fails, chooser):
+    """chooser(run) -> next event or None. Returns the observation record of the whole run."""
+    run = StreamRun(mods, pre_progs, pre_jobs, fails)
+    events, checks = [], []
+    try:
+        while True:
+            ev = chooser(run)
+            if ev is None:
+                break
+            before = [e for e in range(len(run.futs)) if run.running(e)]
+            run.apply(ev)
+            events.append(ev)
+            checks += stream_step_oracles(run, ev, before)
+        checks += stream_final_oracles(run)
+    finally:
+        run.close()
+    return dict(pre_progs=sorted(pre_progs), pre_jobs=sorted(pre_jobs), fails=sorted(fails), events=events,
+                reqs=run.reqs, replies=run.replies, dones=[(s, e, o[:2]) for s, e, o in run.dones], cancels=run.cancels,
+                subs=run.subs, creates=run.creates, anomalies=run.anomalies, bad=checks)
+
+
+def stream_step_oracles(run, ev, before):
+    """The property's statement on the real run, step by step (no model involved)."""
+    from .. import tables_c20
+    bad = []
+    step = run.step
+    done_now = {e: o for s, e, o in run.dones if s == step}
+    reqs_now = [(e, mid, kind) for s, e, mid, kind in run.reqs if s == step]
+    if ev[0] == 'Break' and run.streams:
+        exc = run.live_exc.get(step)
+        import google.api_core.exceptions as gexc
+        retry = isinstance(exc, gexc.GoogleAPICallError) and run.sm._is_retryable_error(exc)
+        for e in before:
+            if retry:
+                if e in done_now or not any(x == e and kind == 'GetResult' for x, _, kind in reqs_now):
+                    bad.append(('retry', f'execution {e}: after a retryable {ev[1]} it did not re-send a GetQuantumResultRequest '
+                                         f'(done={done_now.get(e)}, requests={reqs_now})'))
+            else:
+                o = done_now.get(e)
+                if o is None or o[0] != 'exn' or o[2] != id(exc):
+                    bad.append(('surface', f'execution {e}: non-retryable {ev[1]} did not surface to the caller (got {o})'))
+    if ev[0] == 'Cancel' and ev[1] in before:
+        rpcs = [x for s, x in run.cancels if s == step]
+        if rpcs != [ev[1]] or done_now.get(ev[1], ('?',))[0] != 'cancelled':
+            bad.append(('cancel', f'cancelling submit {ev[1]}: cancel_quantum_job calls for executions {rpcs}, future {done_now.get(ev[1])}'))
+    if ev[0] not in ('Cancel', 'RespondCancel', 'Stop') and any(s == step for s, _ in run.cancels):
+        bad.append(('cancel', f'cancel_quantum_job sent at step {step} ({ev}) although nothing was cancelled'))
+    # a finished execution got its own job's result
+    for e, o in done_now.items():
+        if o[0] in ('result', 'job') and o[1] != e:
+            bad.append(('routing', f'submit {e} was completed with the result of job {o[1]}'))
+        if o[0] in ('result', 'job') and run.creates.count(e) != (0 if e in run.pre_jobs0 else 1):
+            bad.append(('once', f'submit {e} returned a result but its job was created {run.creates.count(e)} times'))
+    # every execution still running has its current request subscribed and in flight (nothing lost)
+    subs = run.subs[-1]
+    inflight = {mid for _, mid, _, _, _ in run.wire} | {mid for mid, _, _ in run.pending}
+    for e in range(len(run.futs)):
+        if run.running(e):
+            mine = [mid for s, x, mid, kind in run.reqs if x == e]
+            if not mine or mine[-1] not in subs or mine[-1] not in inflight:
+                bad.append(('orphan', f'execution {e} is running but its last request {mine[-1:]} is not subscribed / in flight '
+                                      f'(subscribers {subs}, in flight {sorted(inflight)})'))
+    return bad
+
+
+def stream_final_oracles(run):
+    bad = []
+    ids = [mid for _, _, mid, _ in run.reqs]
+    if any(b <= a for a, b in zip(ids, ids[1:])) or len(set(ids)) != len(ids):
+        bad.append(('ids', f'message ids are reused / not increasing: {ids}'))
+    for e in set(run.creates):
+        if run.creates.count(e) > 1:
+            bad.append(('once', f'job of submit {e} created {run.creates.count(e)} times'))
+    for s, e in run.cancels:
+        if sum(1 for _, x in run.cancels if x == e) > 1:
+            bad.append(('cancel', f'cancel_quantum_job sent more than once for submit {e}'))
+    for a in run.anomalies:
+        bad.append(('request', f'malformed / misplaced request: {a}'))
+    return bad
+
+
+# ---- Gallina literals ----
+def _lit_event(ev):
+    k = ev[0]
+    if k == 'Submit':
+        return f'(Submit {ev[1]})'
+    if k == 'RejectReq':
+        return f'(RejectReq {ev[1]} {ev[2]})'
+    if k == 'Break':
+        return f'(Break X{ev[1]})'
+    if k == 'Stop':
+        return 'Stop'
+    return f'({k} {ev[1]})'
+
+
+def _lit_payload(p):
+    if p[0] == 'err':
+        return f'(MErr {p[1]})'
+    return f'(MRes ({"RJob" if p[0] == "job" else "RResult"} {p[1]}))'
+
+
+def _lit_eoutcome(o):
+    from .. import tables_c20
+    if o[0] in ('result', 'job'):
+        return f'(OReturned ({"RJob" if o[0] == "job" else "RResult"} {o[1] if o[1] >= 0 else 999999}))'
+    if o[0] == 'stream':
+        return f'(ORaisedStream {o[1]})' if o[1] in tables_c20.CODES else '(ORaisedStream CODE_UNSPECIFIED)'
+    if o[0] == 'exn' and o[1] in tables_c20.EXNS:
+        return f'(ORaisedExn X{o[1]})'
+    if o[0] == 'cancelled':
+        return 'OCancelled'
+    return '(OReturned (RResult 999998))'      # something the model never produces
+
+
+def _nl(xs):
+    return '[' + '; '.join(str(x) for x in xs) + ']'
+
+
+def _lit_mcase(c):
+    n = lambda x: x if x >= 0 else 999999
+    return ('(mkmcase ' + _nl(c['pre_progs']) + ' ' + _nl(c['pre_jobs']) + ' ' + _nl(c['fails']) + '\n  ['
+            + '; '.join(_lit_event(e) for e in c['events']) + ']\n  ['
+            + '; '.join(f'({s}, {n(e)}, {n(i)}, {k})' for s, e, i, k in c['reqs']) + ']\n  ['
+            + '; '.join(f'({s}, {n(i)}, {_lit_payload(p)})' for s, i, p in c['replies']) + ']\n  ['
+            + '; '.join(f'({s}, {e}, {_lit_eoutcome(o)})' for s, e, o in c['dones']) + ']\n  ['
+            + '; '.join(f'({s}, {n(e)})' for s, e in c['cancels']) + ']\n  ['
+            + '; '.join(_nl([n(x) for x in ss]) for ss in c['subs']) + ']\n  ' + _nl(c['creates']) + ')')
+
+
+STREAM_HEADER = ('From Coq Require Import List Bool.\nFrom VF Require Import Base.Harness Async.StreamTypes Async.Stream.\n'
+                 'Import ListNotations.\n')
+
+
+def stream_compare(ctx, name, cases):
+    bad = []
+    for lo in range(0, len(cases), 300):
+        shard = cases[lo:lo + 300]
+        text = STREAM_HEADER + 'Definition cases : list mcase := [\n' + ';\n'.join(_lit_mcase(c) for c in shard) + '].\n'
+        text += 'Eval vm_compute in failing magrees cases.\n'
+        vals = coq.parse_evals(coq.coq_eval(f'c20_{name}_{ctx.seed}_{lo}', text))
+        bad += [lo + i for i in coq.parse_nat_list(vals[0])]
+    return bad
+
+
+# ---- generators ----
+RETRYABLE = ['InternalServerError', 'ServiceUnavailable', 'Unknown', 'SubServiceUnavailable']
+FATAL = ['BadGateway', 'DeadlineExceeded', 'DataLoss', 'Aborted', 'Cancelled', 'NotFound', 'PermissionDenied',
+         'ResourceExhausted', 'InvalidArgument', 'RuntimeError']
+STATE_CODES = ['PROGRAM_ALREADY_EXISTS', 'JOB_ALREADY_EXISTS', 'PROGRAM_DOES_NOT_EXIST', 'JOB_DOES_NOT_EXIST']
+OTHER_CODES = ['CODE_UNSPECIFIED', 'INTERNAL', 'INVALID_ARGUMENT', 'PERMISSION_DENIED', 'PROCESSOR_DOES_NOT_EXIST',
+               'INVALID_PROCESSOR_FOR_JOB']
+
+
+def random_stream_chooser(rng, max_submits, length):
+    n = [0]
+
+    def choose(run):
+        n[0] += 1
+        if n[0] > length:
+            return None
+        nw, npend, ne = len(run.wire), len(run.pending), len(run.futs)
+        live = [e for e in range(ne) if run.running(e)]
+        opts = []
+        if ne < max_submits:
+            opts += [('Submit', rng.choice([0, 0, 1]))] * (4 if not live else 2)
+        if nw:
+            opts += [('Process', rng.randrange(nw))] * 6
+            opts += [('RejectReq', rng.randrange(nw), rng.choice(STATE_CODES * 2 + OTHER_CODES))]
+        if npend:
+            opts += [('Respond', rng.randrange(npend))] * 6
+            opts += [('RespondCancel', rng.randrange(npend))]
+        if run.streams:
+            opts += [('Break', rng.choice(RETRYABLE))] * 3
+            opts += [('Break', rng.choice(FATAL))]
+        if ne:
+            opts += [('Cancel', rng.randrange(ne))]
+        if rng.random() < 0.03:
+            opts += [('Stop',)]
+        if rng.random() < 0.05:
+            opts += [rng.choice([('Process', nw + 1), ('Respond', npend), ('Cancel', ne + 2)])]   # no-ops
+        return rng.choice(opts) if opts else None
+    return choose
+
+
+def scripted_stream_chooser(script, menu_fn):
+    pos = [0]
+
+    def choose(run):
+        if pos[0] >= len(script):
+            return None
+        menu = menu_fn(run)
+        if not menu:
+            return None
+        ev = menu[script[pos[0]] % len(menu)]
+        pos[0] += 1
+        return ev
+    return choose
+
+
+def stream_menu(max_submits):
+    def menu(run):
+        nw, npend, ne = len(run.wire), len(run.pending), len(run.futs)
+        m = []
+        if ne < max_submits:
+            m.append(('Submit', 0))
+        m += [('Process', k) for k in range(nw)]
+        m += [('Respond', k) for k in range(npend)]
+        if any(run.running(e) for e in range(ne)):
+            m += [('Break', 'ServiceUnavailable'), ('Break', 'NotFound')]
+            m += [('Cancel', e) for e in range(ne) if run.running(e)]
+        return m
+    return menu
+
+
+def enumerate_stream(mods, pre_progs, pre_jobs, max_submits, depth, limit):
+    """All event sequences of the given depth over the state-dependent menu (DFS, bounded by `limit`)."""
+    out = []
+    stack = [[]]
+    menu = stream_menu(max_submits)
+    complete = True
+    while stack:
+        if len(out) >= limit:
+            complete = False
+            break
+        script = stack.pop()
+        width = [None]
+
+        def chooser(run, script=script):
+            if len(run_events) == len(script):
+                width[0] = len(menu(run))
+                return None
+            mm = menu(run)
+            if not mm:
+                return None
+            ev = mm[script[len(run_events)]]
+            run_events.append(ev)
+            return ev
+        run_events = []
+        c = run_stream_case(mods, pre_progs, pre_jobs, (), chooser)
+        if len(script) == depth or not width[0]:
+            out.append(c)
+        else:
+            for i in reversed(range(width[0])):
+                stack.append(script + [i])
+    return out, complete
+
+
+def fault_case(mods, rng, sprog, sjob, faults):
+    """Part A: one submit along a fault sequence; events are derived from the faults while the execution runs."""
+    it = iter(faults)
+    todo = []
+    n = [0]
+
+    def chooser(run):
+        if todo:
+            return todo.pop(0)
+        if not run.futs:
+            return ('Submit', 0)
+        if not run.running(0) or n[0] > len(faults) + 6:
+            return None
+        n[0] += 1
+        f = next(it, ('NoFault',))
+        if f[0] == 'NoFault':
+            todo.append(('Respond', 0))
+            return ('Process', 0)
+        if f[0] == 'Reject':
+            todo.append(('Respond', 0))
+            return ('RejectReq', 0, f[1])
+        if f[0] == 'BreakBefore':
+            return ('Break', f[1])
+        todo.append(('Break', f[1]))
+        return ('Process', 0)
+    c = run_stream_case(mods, [0] if sprog else [], [0] if sjob else [], (), chooser)
+    c['faults'] = list(faults)
+    c['sprog'], c['sjob'] = sprog, sjob
+    return c
+
+
+def _lit_fault(f):
+    if f[0] == 'NoFault':
+        return 'NoFault'
+    if f[0] == 'Reject':
+        return f'(Reject {f[1]})'
+    return f'({f[0]} X{f[1]})'
+
+
+def _lit_fcase(c):
+    kinds = [k for _, _, _, k in c['reqs']]
+    o = c['dones'][0][2] if c['dones'] else ('running',)
+    if o[0] in ('result', 'job'):
+        lo = 'Returned' if o[1] == 0 else 'OutOfFuel'
+    elif o[0] == 'stream':
+        lo = f'(RaisedStream {o[1]})'
+    elif o[0] == 'exn':
+        lo = f'(RaisedExn X{o[1]})'
+    else:
+        lo = 'OutOfFuel'
+    b = lambda x: 'true' if x else 'false'
+    return (f'({b(c["sprog"])}, {b(c["sjob"])}, [' + '; '.join(_lit_fault(f) for f in c['faults']) + '], ['
+            + '; '.join(kinds) + f'], {lo}, {len(c["creates"])})')
+
+
+def fault_compare(ctx, cases):
+    bad = []
+    for lo in range(0, len(cases), 400):
+        shard = cases[lo:lo + 400]
+        text = STREAM_HEADER + 'Definition cases : list (bool * bool * list fault * list req * outcome * nat) := [\n'
+        text += ';\n'.join(_lit_fcase(c) for c in shard) + '].\nEval vm_compute in failing cagrees cases.\n'
+        vals = coq.parse_evals(coq.coq_eval(f'c20_faults_{ctx.seed}_{lo}', text))
+        bad += [lo + i for i in coq.parse_nat_list(vals[0])]
+    return bad
+
+
+def all_faults():
+    return ([('NoFault',)] + [('BreakBefore', x) for x in ('ServiceUnavailable', 'NotFound')]
+            + [('BreakAfter', x) for x in ('InternalServerError', 'RuntimeError')]
+            + [('Reject', c) for c in STATE_CODES + ['INTERNAL']])
+
+
+def stream_streams(ctx, mods):
+    rng = ctx.rng
+    quick = ctx.tier == 'quick'
+    # (A) one execution, fault sequences: exhaustive up to length 2 (3 in thorough) over 9 fault kinds x 4 server states
+    fcases = []
+    depth = 2 if quick else 3
+    alphabet = all_faults()
+    for sprog, sjob in ((False, False), (True, False), (True, True), (False, True)):
+        for L in range(depth + 1):
+            for fs in itertools.product(alphabet, repeat=L):
+                fcases.append(fault_case(mods, rng, sprog, sjob, fs))
+    for _ in range(150 if quick else 3000):
+        L = rng.randint(3, 7)
+        fs = [rng.choice(alphabet + [('BreakBefore', x) for x in RETRYABLE] + [('BreakAfter', x) for x in RETRYABLE]
+                         + [('BreakAfter', rng.choice(FATAL)), ('Reject', rng.choice(OTHER_CODES))]) for _ in range(L)]
+        fcases.append(fault_case(mods, rng, rng.random() < 0.4, rng.random() < 0.25, fs))
+    for c in fcases:
+        c['stream'] = 'stream_faults'
+    # (B) the manager: enumerated interleavings + random schedules
+    mcases = []
+    sweeps = [((), (), 2, 5, 1500)] if quick else [((), (), 2, 7, 20000), ((0,), (), 2, 6, 8000), ((), (), 3, 6, 20000)]
+    complete = True
+    for pre_progs, pre_jobs, subm, dep, limit in sweeps:
+        cs, comp = enumerate_stream(mods, pre_progs, pre_jobs, subm, dep, limit)
+        complete &= comp
+        for c in cs:
+            c['stream'] = 'stream_enum'
+        mcases += cs
+    ctx.cov['stream_enumeration_complete'] = complete
+    for _ in range(500 if quick else 8000):
+        pre_progs = [p for p in (0, 1) if rng.random() < 0.25]
+        pre_jobs = [e for e in (0, 1, 2) if rng.random() < 0.12]
+        fails = [e for e in (0, 1, 2, 3) if rng.random() < 0.15]
+        c = run_stream_case(mods, pre_progs, pre_jobs, fails, random_stream_chooser(rng, rng.choice([1, 2, 3, 3, 4]), rng.randint(4, 16)))
+        c['stream'] = 'stream_random'
+        mcases.append(c)
+    for c in fcases + mcases:
+        nfault = sum(1 for e in c['events'] if e[0] in ('Break', 'RejectReq', 'Cancel', 'RespondCancel', 'Stop'))
+        ctx.count(c['stream'], (c['pre_progs'], c['pre_jobs'], c['fails'], c['events']), nontrivial=len(c['reqs']) >= 2 and nfault >= 1,
+                  sample=dict(pre_programs=c['pre_progs'], pre_jobs=c['pre_jobs'], events=c['events'], requests=c['reqs'],
+                              outcomes=c['dones'], cancel_rpcs=c['cancels']))
+        for kind, what in c['bad']:
+            ctx.violation(f'stream:{kind}', f'StreamManager: {what}',
+                          dict(kind='stream', pre_progs=c['pre_progs'], pre_jobs=c['pre_jobs'], fails=c['fails'],
+                               events=c['events'], failed=kind))
+    for idx in fault_compare(ctx, fcases):
+        c = fcases[idx]
+        ctx.mark_broken('correspondence:stream_faults',
+                        f'client model and _manage_execution differ: server(prog={c["sprog"]}, job={c["sjob"]}) faults={c["faults"]} '
+                        f'requests={c["reqs"]} outcome={c["dones"]} creates={c["creates"]}')
+    for idx in stream_compare(ctx, 'stream', fcases + mcases):
+        c = (fcases + mcases)[idx]
+        ctx.mark_broken('correspondence:stream',
+                        f'manager model and StreamManager differ: pre_progs={c["pre_progs"]} pre_jobs={c["pre_jobs"]} '
+                        f'fails={c["fails"]} events={c["events"]} requests={c["reqs"]} replies={c["replies"]} '
+                        f'outcomes={c["dones"]} cancels={c["cancels"]} subscribers={c["subs"]} creates={c["creates"]}')
+
+
+def replay_stream(mods, data):
+    evs = [tuple(e) for e in data['events']]
+    it = iter(evs)
+    c = run_stream_case(mods, data['pre_progs'], data['pre_jobs'], data['fails'], lambda run: next(it, None))
+    print('requests:', c['reqs'])
+    print('outcomes:', c['dones'], 'cancel rpcs:', c['cancels'])
+    print('oracle failures:', c['bad'])
+    return not c['bad']
+
+
+# ======================================================================================================================
 
 
 def run(ctx):
@@ -447,8 +1110,12 @@ def run(ctx):
                 'oracle, schedule)')
     ctx.assumptions += ['duet scheduler ticked by hand: completions are applied only when no task is ready (quiescent points)',
                         'the fake Sampler returns duet futures completed by the driver; results are integers']
+    err = tables.regenerate(['RetryTable'])
+    if err['RetryTable']:
+        ctx.mark_broken('table:RetryTable', err['RetryTable'])
     ctx.set_obligations(coq.compile_props('C20'))
     collector_stream(ctx, cirq)
+    stream_streams(ctx, mods)
 
 
 def replay(ctx, data):
@@ -456,5 +1123,7 @@ def replay(ctx, data):
     cirq = mods['cirq']
     if data.get('kind') == 'collector':
         return replay_collector(cirq, data)
+    if data.get('kind') == 'stream':
+        return replay_stream(mods, data)
     print('nothing to replay for kind', data.get('kind'))
     return False
